@@ -36,8 +36,21 @@ pub fn build_pass_1(
             SegmentType::Eeprom => eeprom_offset,
         };
 
+        #[cfg(not(avra_verif))]
         let (current_end_offset, current_offset, items) =
             pass_1_internal(&segment, offset, common_context)?;
+        // Verification hook: on the error path leak what was built so far instead of running
+        // its drop glue (same reason as the hook at the end of the loop body)
+        #[cfg(avra_verif)]
+        let (current_end_offset, current_offset, items) =
+            match pass_1_internal(&segment, offset, common_context) {
+                Ok(ok) => ok,
+                Err(e) => {
+                    std::mem::forget(std::mem::replace(&mut segments, vec![]));
+                    std::mem::forget(segment);
+                    return Err(e);
+                }
+            };
         segments.push(Segment {
             items,
             t: segment.t,
@@ -85,7 +98,11 @@ fn pass_1_internal(
         segment.address
     };
 
+    #[cfg(not(avra_verif))]
     let mut out_items = vec![];
+    // Verification hook: never run the drop glue of the items collected so far (error paths)
+    #[cfg(avra_verif)]
+    let mut out_items = std::mem::ManuallyDrop::new(vec![]);
     let mut cur_address = current_offset;
 
     for (line, item) in &segment.items {
@@ -159,6 +176,8 @@ fn pass_1_internal(
         }
     }
 
+    #[cfg(avra_verif)]
+    let out_items = std::mem::ManuallyDrop::into_inner(out_items);
     Ok((cur_address, current_offset, out_items))
 }
 
